@@ -600,3 +600,59 @@ V("C42-version-recorded-first","C42",MB+"version.go","""func migrateFrom10Versio
 		return err
 	}
 	err = updateContainersInterruptable(db, []byte{metadataPrefix}, dropHomomorphicIndexes)""",rule="C42.R2",more=[{"file":MB+"version.go","old":"		return updateVersion(tx, 11)\n","new":"		return nil\n"}])
+
+# ---- C03 / C05
+V("C03-delete-keeps-int-index","C03",MB+"metadata.go","""		if n, ok := parseInt(string(attrV)); ok {
+			kAttrIDInt :=""","""		if n, ok := parseInt(string(attrV)); ok && len(attrV) < 40 {
+			kAttrIDInt :=""",rule="C03.R2",expect="silent")
+V("C03-delete-skips-parse","C03",MB+"metadata.go","""		ks = append(ks, kIDAttr, kAttrID)
+		if n, ok := parseInt(string(attrV)); ok {""","""		ks = append(ks, kIDAttr, kAttrID)
+		if len(attrV) > 78 {
+			continue
+		}
+		if n, ok := parseInt(string(attrV)); ok {""",rule="C03.R2")
+V("C03-put-int-without-parser","C03",MB+"metadata.go","""			if n, isInt := parseInt(av); isInt {
+				err = putIntAttribute(metaBkt, &keyBuf, id, ak, av, &n)""","""			if n, isInt := parseInt(av); isInt || len(av) == 0 {
+				err = putIntAttribute(metaBkt, &keyBuf, id, ak, av, &n)""",rule="C03.R2")
+V("C03-delete-forgets-plain-class","C03",MB+"metadata.go","		kAttrID[0] = metaPrefixAttrIDPlain","		kAttrID[0] = metaPrefixIDAttr",rule="C03.R1")
+V("C03-parseint-other-parser","C03",MB+"util.go","""	n, err := signed256.ParseDecimal(s)
+	return n, err == nil""","""	if len(s) > 0 && s[0] == '+' {
+		return signed256.Int{}, false
+	}
+	n, err := signed256.ParseDecimal(s)
+	return n, err == nil""",expect="silent")
+V("C05-split-keeps-signed-zero","C05","pkg/core/object/metadata.go","""	if start == len(s) {
+		return false, "0", nil
+	}""","""	if start == len(s) {
+		return neg, "0", nil
+	}""",rule="C05.R6")
+V("C05-decode-accepts-any-sign","C05","internal/signed256/signed256.go","""	default:
+		return Int{}, fmt.Errorf("invalid sign byte %d", b[0])
+	case 0:
+		z.neg = true
+	case 1:
+	}""","""	case 0:
+		z.neg = true
+	default:
+	}""",rule="C05.R3")
+V("C05-fill-no-invert","C05","internal/signed256/signed256.go","""	copy(dst[1:EncodedLen], raw[:])
+	if z.neg {
+		for i := range dst[1:EncodedLen] {""","""	copy(dst[1:EncodedLen], raw[:])
+	if !z.neg {
+		for i := range dst[1:EncodedLen] {""",rule="C05.R3")
+V("C05-cmp-neg-not-reversed","C05","internal/signed256/signed256.go","""	cmp := z.mag.Cmp(&x.mag)
+	if z.neg {
+		return -cmp
+	}
+	return cmp""","""	cmp := z.mag.Cmp(&x.mag)
+	if x.neg && !z.neg {
+		return -cmp
+	}
+	return cmp""",rule="C05.R5")
+V("C05-double-sign-again","C05","internal/signed256/signed256.go","""	if s[0] == '+' || s[0] == '-' {""","""	if s[0] == '-' {""",rule="C05.R1")
+V("C05-minus-zero-kept","C05","internal/signed256/signed256.go","""	if z.mag.IsZero() {
+		z.neg = false
+	}
+	return nil
+}""","""	return nil
+}""",rule="C05.R3")
